@@ -183,3 +183,109 @@ class GhostFile:
 
     def flush(self):
         pass
+
+
+# ---------------------------------------------------------------- fixed-length byte buffers
+
+class SymBuf:
+    """A bytearray/bytes of *concrete length* whose items are symbolic bytes
+    (e.g. the 4 bytes of an instruction word).  Mutable like a bytearray."""
+
+    def __init__(self, items, kind="bytearray"):
+        self.items = list(items)
+        self.kind = kind
+
+    @staticmethod
+    def fresh(c, name, n, kind="bytearray"):
+        items = []
+        for i in range(n):
+            v = SymInt(z3.Int("%s[%d]" % (name, i)))
+            c.assume(z3.And(v.e >= 0, v.e < 256))
+            v.width = 8
+            items.append(v)
+        return SymBuf(items, kind)
+
+    def __len__(self):
+        return len(self.items)
+
+    def __iter__(self):
+        return iter(self.items)
+
+    def __reversed__(self):
+        return reversed(self.items)
+
+    def _chk(self, v):
+        if isinstance(v, int):
+            if not 0 <= v < 256:
+                raise ValueError("byte must be in range(0, 256)")
+            return v
+        if not bool((v >= 0) & (v < 256)):
+            raise ValueError("byte must be in range(0, 256)")
+        if isinstance(v, SymInt) and v.kb is None:
+            v.width = 8
+        return v
+
+    def __getitem__(self, i):
+        if isinstance(i, slice):
+            return SymBuf(self.items[i], self.kind)
+        if isinstance(i, (SymInt, SymBool)):
+            i = i.__index__()
+        return self.items[i]
+
+    def __setitem__(self, i, v):
+        if self.kind != "bytearray":
+            raise TypeError("'bytes' object does not support item assignment")
+        if isinstance(i, slice):
+            vals = [self._chk(x) for x in v]
+            self.items[i] = vals
+            return
+        if isinstance(i, (SymInt, SymBool)):
+            i = i.__index__()
+        self.items[i] = self._chk(v)
+
+    def __add__(self, o):
+        return SymBuf(self.items + list(o), self.kind)
+
+    def __radd__(self, o):
+        return SymBuf(list(o) + self.items, "bytes" if isinstance(o, bytes) else self.kind)
+
+    def __eq__(self, o):
+        o = list(o)
+        if len(o) != len(self.items):
+            return False
+        from .spec import and_
+        return and_(*[a == b for a, b in zip(self.items, o)]) if o else True
+
+    __hash__ = None
+
+    def word(self, endian="little"):
+        items = self.items if endian == "little" else list(reversed(self.items))
+        r = 0
+        for i, b in enumerate(items):
+            r = r + b * (1 << (8 * i))
+        return r
+
+    def snapshot(self):
+        return SymBuf(list(self.items), self.kind)
+
+
+def buf_items(x):
+    """list of byte values of a bytes-like result (SymBuf, SymSeq of concrete length, bytes, bytearray)"""
+    if isinstance(x, SymBuf):
+        return list(x.items)
+    if isinstance(x, SymSeq):
+        n = S._concrete(x._len())
+        if n is None:
+            raise Undecided("bytes result of symbolic length")
+        return [x[i] for i in range(n)]
+    return list(x)
+
+
+def buf_word(x, endian="little"):
+    items = buf_items(x)
+    if endian != "little":
+        items = list(reversed(items))
+    r = 0
+    for i, b in enumerate(items):
+        r = r + b * (1 << (8 * i))
+    return r
